@@ -331,12 +331,13 @@ class Check:
             'coverage': cov, 'assumptions': self.assumptions, 'wall_s': round(time.time() - self.t0, 2),
             'violations': violations,
         }
-        d = VERIF / 'evidence'
+        # experiments against a patched scratch tree (tools/eval_seeded.sh) must not overwrite the committed evidence
+        d = Path(os.environ['VERIF_EVIDENCE_DIR']) if os.environ.get('VERIF_EVIDENCE_DIR') else VERIF / 'evidence'
         d.mkdir(exist_ok=True)
         json.dump(ev, open(d / (self.pid + '.json'), 'w'), indent=1, default=str)
 
     def write_replay(self, payload, tag):
-        d = VERIF / 'replays'
+        d = Path(os.environ['VERIF_REPLAY_DIR']) if os.environ.get('VERIF_REPLAY_DIR') else VERIF / 'replays'
         d.mkdir(exist_ok=True)
         fn = d / ('%s_%s_seed%d.json' % (self.pid, tag, self.seed))
         payload = dict(payload)
